@@ -105,7 +105,25 @@ class C12(OutstationProp):
         soltx = int(cfg.get("soltx", 2048))
         steps = split_steps(impl)
         last_unsol = None   # (seq, bytes)
+        # session state at the START of every step: in the unsolicited confirm wait requests other than READ and
+        # CONFIRM are processed at once (no `idle_request` line), so the rejection clauses apply there as well
+        uw_at = []
+        in_uw = False
         for op, t, lines in steps:
+            uw_at.append(in_uw)
+            for l in lines:
+                tk = l.split()
+                if len(tk) == 2 and tk[1].startswith("session-end"): in_uw = False
+                if len(tk) >= 3 and tk[1] == "info":
+                    if tk[2] == "enter_unsol_wait": in_uw = True
+                    elif tk[2] == "unsol_confirmed": in_uw = False
+                    elif tk[2] == "unsol_timeout" and len(tk) > 4 and tk[4] == "0": in_uw = False
+                    elif tk[2] == "broadcast" and tk[3] == "21" and tk[4] == "processed": in_uw = False
+            if op[0] == "rx" and op[2] == "none" and uw_at[-1]:
+                bb = bytes.fromhex(op[3]) if op[3] != "-" else b""
+                if len(bb) >= 2 and bb[1] == 21 and any(" tx " in l and l.split()[3][2:4] == "81" for l in lines if len(l.split()) > 3):
+                    in_uw = any(" info enter_unsol_wait" in l for l in lines)     # cancelled (a new series may start at once)
+        for k_step, (op, t, lines) in enumerate(steps):
             step = txs(lines)
             for l in lines:
                 tk = l.split()
@@ -144,6 +162,8 @@ class C12(OutstationProp):
                 continue
             fn = b[1]
             idle = any(" info idle_request " in l for l in lines)
+            if not idle and uw_at[k_step] and fn not in (0, 1):
+                idle = True          # processed at once in the unsolicited confirm wait
             # a fragment rejected at header level (unknown function code, FIR/FIN/UNS not those of a request) is
             # answered with IIN2.0 and its own sequence number IN EVERY SESSION STATE (idle, either confirm wait)
             unk = [x for x in dtoks if x.startswith("hp=unkfn")]
